@@ -68,7 +68,8 @@ class _C18(Spec):
     rule = ("line protocol `tod`: all 86 400 valid times of day for `total` (GetTotalSeconds + GetHmsBySeconds back), `rt` (GetFloatHour -> FloatHourToHMS, the real "
             "float code against the exact-rational model) and `secs`; `fh <bits>` for k/3600 and k/3600 +- 1e-9 for every k and seeded random doubles in [0,24): the double's "
             "exact rational value goes through the rational model; where the exact value of fh*3600+0.5 is within 1e-6 of an integer either neighbouring second is accepted. "
-            "The one-second bound is evaluated exactly (math/big) on the real result.")
+            "The one-second bound is evaluated exactly (math/big) on the real result. `zone jhms <instant>` in zones whose clocks change (around every change of 10 / 40 zones, "
+            "plus seeded instants): the seconds GetJdAndSecondsFromEpoch returns are 3600h+60m+s of the time of day the library reports for that instant and convert back to it.")
     assumptions = ["IEEE-754 double arithmetic inside GetFloatHour / FloatHourToHMS is not modelled: the model is exact rational arithmetic (Lean has no kernel semantics for Float); "
                    "the round-trip clause has a finite domain and is compared exhaustively with the real float code on every run; the any-float clause is proved for rationals and "
                    "sampled for doubles (partial)"]
@@ -118,6 +119,26 @@ class _C18(Spec):
             if 0 <= x < 24:    # true of -0.0
                 freqs.append("tod fh %d" % _bits(x))
         sts.append(Stream("tod-floats", freqs, compare=self.compare_default))
+        # the observation point that takes an instant: GetJdAndSecondsFromEpoch in zones whose clocks change - around every
+        # change (before, at, after, later that local day and the next), plus seeded instants
+        from . import zones
+        names = [z for z in zones.pick_zones("quick", rng) if zones.zone_data(z)[1]]
+        rng.shuffle(names)
+        groups = []
+        for name in names[:10 if tier == "quick" else 40]:
+            off0, tr, _ = zones.zone_data(name)
+            g, seen = [zones.header(name)], set()
+            trs = tr if len(tr) <= 60 or tier != "quick" else rng.sample(tr, 60)
+            for t, o in trs:
+                for d in (-3601, -1, 0, 1, 1799, 3599, 3600, 3601, 7200, 7201, 12 * 3600, 86399 - ((t + o) % 86400), 86400 - ((t + o) % 86400), 86400):
+                    e = t + d
+                    if e not in seen and -5364662400 <= e < 7258118400:
+                        seen.add(e)
+                        g.append("zone jhms %d" % e)
+            for _ in range(300):
+                g.append("zone jhms %d" % rng.randrange(-5364662400, 7258118400))
+            groups.append(g)
+        sts.append(Stream("tod-of-instants", None, groups=groups))
         return sts
 
     def exhaustive(self, tier):
